@@ -30,6 +30,7 @@ import (
 	"math/rand"
 	"os"
 	"path/filepath"
+	"reflect"
 	"sort"
 	"strconv"
 	"strings"
@@ -42,7 +43,6 @@ import (
 	ethcrypto "github.com/ethereum/go-ethereum/crypto"
 	"github.com/libp2p/go-libp2p/core/peer"
 	"github.com/prometheus/client_golang/prometheus"
-	dto "github.com/prometheus/client_model/go"
 	"google.golang.org/protobuf/proto"
 )
 
@@ -146,9 +146,12 @@ func c03Metrics() string {
 		ch := make(chan prometheus.Metric, 4096)
 		go func() { vec.Collect(ch); close(ch) }()
 		for m := range ch {
-			var d dto.Metric
-			if err := m.Write(&d); err == nil {
-				lines = append(lines, d.String())
+			// m.Write(*dto.Metric) through reflection: importing client_model by name would make `go test -mod=mod`
+			// rewrite /repo/node/go.mod (it is an indirect dependency there)
+			w := reflect.ValueOf(m).MethodByName("Write")
+			d := reflect.New(w.Type().In(0).Elem())
+			if out := w.Call([]reflect.Value{d}); len(out) == 1 && out[0].IsNil() {
+				lines = append(lines, fmt.Sprint(d.Interface()))
 			}
 		}
 	}
@@ -527,6 +530,50 @@ func (g *c03Gen) mutationSession(n int) {
 	s.end()
 }
 
+// every single byte of payload, signature and envelope address flipped (one random bit each), for both message types
+func (g *c03Gen) flipSession() {
+	ks := g.keys(3)
+	gs := c03Set(ks)
+	s := g.start("flip", true)
+	k := ks[1]
+	hbB := g.hbBody(true, 1)
+	hbSig := c03Sign(k, c03cat(c03HbPrefix, hbB))
+	rqB := g.reqBody()
+	rqSig := c03Sign(k, c03cat(c03ReqPrefix, rqB))
+	a := k.a.Bytes()
+	bit := func() byte { return byte(1 << uint(g.r.Intn(8))) }
+	p := g.peer()
+	s.hb(false, gs, p, hbB, hbSig, a)
+	for i := range hbB {
+		s.hb(false, gs, p, c03Flip(hbB, i, bit()), hbSig, a)
+	}
+	for i := range hbSig {
+		s.hb(false, gs, p, hbB, c03Flip(hbSig, i, bit()), a)
+	}
+	for i := range a {
+		s.hb(false, gs, p, hbB, hbSig, c03Flip(a, i, bit()))
+	}
+	for i := range rqB {
+		s.req(gs, c03Flip(rqB, i, bit()), rqSig, a)
+	}
+	for i := range rqSig {
+		s.req(gs, rqB, c03Flip(rqSig, i, bit()), a)
+	}
+	for i := range a {
+		s.req(gs, rqB, rqSig, c03Flip(a, i, bit()))
+	}
+	// every truncation of the payload with the original signature, and re-signed (the floor and the decoder)
+	for n := 0; n < len(hbB); n += 1 + g.r.Intn(3) {
+		s.hb(false, gs, p, hbB[:n], hbSig, a)
+		s.hb(false, gs, p, hbB[:n], c03Sign(k, c03cat(c03HbPrefix, hbB[:n])), a)
+	}
+	for n := 0; n < len(rqB); n += 1 + g.r.Intn(3) {
+		s.req(gs, rqB[:n], rqSig, a)
+		s.req(gs, rqB[:n], c03Sign(k, c03cat(c03ReqPrefix, rqB[:n])), a)
+	}
+	s.end()
+}
+
 // the length floor: validly signed, decodable bodies whose pre-image has every length around 32 and 34
 func (g *c03Gen) floorSession() {
 	ks := g.keys(3)
@@ -636,7 +683,7 @@ func (g *c03Gen) capSession(capN int) {
 	s := g.start("cap", g.r.Intn(2) == 0)
 	k := ks[0]
 	send := func(k c03Key, p peer.ID, fresh bool) {
-		b := g.hbBody(fresh, 0)
+		b := g.hbBody(fresh, 1)
 		s.hb(false, gs, p, b, c03Sign(k, c03cat(c03HbPrefix, b)), k.a.Bytes())
 	}
 	var peers []peer.ID
@@ -749,13 +796,14 @@ func TestVerifC03Gossip(t *testing.T) {
 			break
 		}
 	}
-	nmut, nrnd, nops := []int{1, 2, 3, 19}, 40, 40
+	nmut, nrnd, nops := []int{1, 2, 3, 19}, 120, 40
 	if tier == "thorough" {
 		nmut, nrnd, nops = []int{1, 2, 3, 4, 7, 13, 19, 19, 19, 32}, 600, 80
 	}
 	for _, n := range nmut {
 		g.mutationSession(n)
 	}
+	g.flipSession()
 	g.floorSession()
 	g.crossSession()
 	g.setChangeSession()
